@@ -1612,6 +1612,7 @@ class C16(fw.Check):
                     self._record_race(plan, trace)
                 if plan['kind'] == 'ctl':
                     self._follow(plan, trace)
+            found = self._confirm_losses(found)
             # per root cause the framework reports the first violation: offer the smallest failing rounds first
             # (controlled ones before timed ones: their witness carries the schedule)
             for _, _, what, sig, detail, plan, trace in sorted(found, key=lambda f: f[:2]):
@@ -1626,6 +1627,40 @@ class C16(fw.Check):
                 self._planted_divergence(everything, traces)
         finally:
             self._cleanup()
+
+    LOSS = ('lost-response', 'pool-died')
+
+    def _confirm_losses(self, found):
+        """An unanswered caller is the one verdict that rests on waiting.  Before it is reported the session is run
+        again (controlled sessions: the same actions): a response the implementation loses is lost again; a stall
+        that does not come back (starved machine, wedged child process) is a timeout - machinery, not a verdict."""
+        suspects = {}
+        for f in found:
+            if f[3] in self.LOSS:
+                suspects.setdefault(f[5]['sid'], f)
+        if not suspects:
+            return found
+        confirmed, unreproduced = set(), []
+        for sid, (_, _, what, sig, detail, plan, trace) in suspects.items():
+            again = dict(self._witness(plan, detail, trace)['plan'], sid=f'{sid}-again')
+            for attempt in (1, 2):
+                try:
+                    repeat = [f for f in self._oracle(again, self._run_session(again)) if f[1] in self.LOSS]
+                except fw.MachineryError as err:
+                    repeat = []
+                    self.notes.append(f'confirmation run {attempt} of session {sid}: {str(err)[:300]}')
+                if repeat:
+                    confirmed.add(sid)
+                    self.notes.append(f'loss in session {sid} ({what[:80]}) reproduced in confirmation run {attempt}')
+                    break
+            else:
+                unreproduced.append(f'session {sid}: {what}; not reproduced by 2 more runs of the same session; '
+                                    f'diagnostics: {json.dumps((detail or {}).get("diag"))[:1500]}')
+        kept = [f for f in found if f[3] not in self.LOSS or f[5]['sid'] in confirmed]
+        if unreproduced and not kept:
+            raise fw.MachineryError('unreproducible stall (timeout, not judged): ' + ' | '.join(unreproduced))
+        self.notes.extend('unreproduced stall: ' + u for u in unreproduced)
+        return kept
 
     def _record_race(self, plan, trace):
         """explain the race trace with both model variants (evidence only)."""
